@@ -8,11 +8,15 @@
 (*   Load        doc -> mem or Err : fields are validated (shape invariants) and the    *)
 (*               rebuild-on-load types are rebuilt (name parsed; market built from the  *)
 (*               first stored currency, FXRates!Build, at order 1)                      *)
+(*   NewFromArgs / SetState   the pickle protocol Python runs on a pyo3 class: a shell  *)
+(*               object is made by the class constructor from __getnewargs__ (which may *)
+(*               be LOSSY - Convention maps two members to one index - but must never   *)
+(*               be refused), then overwritten by __setstate__ with the binary state    *)
 (* Properties: Load(Save(o)) = Canon(o); Canon is idempotent; Save o Load o Save = Save; *)
 (* a mutated document loads to Err or to an object satisfying its shape invariants.     *)
 EXTENDS FXRates, NamedCal, TLC
-VARIABLES mem, doc, fmt, phase, mutated, orig
-vars == <<mem, doc, fmt, phase, mutated, orig>>
+VARIABLES mem, doc, fmt, phase, mutated, orig, shell
+vars == <<mem, doc, fmt, phase, mutated, orig, shell>>
 Err == [t |-> "Err"]
 \* ---- the abstract universe -------------------------------------------------------------
 DualObjs == {[t |-> "Dual", vars |-> v, d |-> [i \in 1..Len(v) |-> i]] : v \in {<<>>, <<"x">>, <<"x", "y">>}}
@@ -21,13 +25,15 @@ NamedObjs == {[t |-> "NamedCal", name |-> n, parsed |-> ParseDecl(n)] : n \in {<
 Q(l, r) == [l |-> l, r |-> r]
 FxObj(qs, b, o) == LET m == Build(qs, b, [k \in 1..Len(qs) |-> 0]) IN [t |-> "FXRates", quotes |-> qs, ccys |-> m.idx, fx |-> m.fx, order |-> o]
 FxObjs == {FxObj(<<Q("eur", "usd")>>, <<>>, o) : o \in 0..2} \cup {FxObj(<<Q("eur", "usd"), Q("usd", "jpy")>>, <<"jpy">>, o) : o \in 0..2}
-Objs == DualObjs \cup SplineObjs \cup NamedObjs \cup FxObjs
+EnumObjs == {[t |-> "Enum", i |-> i] : i \in 0..10}                 \* Convention: eleven members
+Objs == DualObjs \cup SplineObjs \cup NamedObjs \cup FxObjs \cup EnumObjs
 Canon(o) == IF o.t = "FXRates" THEN [o EXCEPT !.order = 1] ELSE o
 \* ---- protocol ------------------------------------------------------------------------------
 SaveDoc(o) == CASE o.t = "Dual" -> [t |-> "Dual", vars |-> o.vars, d |-> o.d, broken |-> {}]
                 [] o.t = "Spline" -> [t |-> "Spline", k |-> o.k, nt |-> o.nt, n |-> o.n, c |-> o.c, broken |-> {}]
                 [] o.t = "NamedCal" -> [t |-> "NamedCal", name |-> o.name, broken |-> {}]                          \* by name only
                 [] o.t = "FXRates" -> [t |-> "FXRates", quotes |-> o.quotes, ccys |-> o.ccys, broken |-> {}]        \* quotes and currencies only
+                [] o.t = "Enum" -> [t |-> "Enum", i |-> o.i, broken |-> {}]
 \* a field that was deleted, duplicated or replaced by a value of the wrong JSON type is recorded in d.broken
 FieldsOf(d) == DOMAIN d \ {"t", "broken"}
 WellTyped(d) == d.broken = {}
@@ -36,12 +42,14 @@ LoadDoc(d) ==
   ELSE CASE d.t = "Dual" -> IF Len(d.vars) = Len(d.d) THEN [t |-> "Dual", vars |-> d.vars, d |-> d.d] ELSE Err
          [] d.t = "Spline" -> IF d.n = d.nt - d.k /\ (d.c = <<>> \/ Len(d.c) = d.n) THEN [t |-> "Spline", k |-> d.k, nt |-> d.nt, n |-> d.n, c |-> d.c] ELSE Err
          [] d.t = "NamedCal" -> LET p == ParseDecl(d.name) IN IF p.ok THEN [t |-> "NamedCal", name |-> d.name, parsed |-> p] ELSE Err
+         [] d.t = "Enum" -> IF d.i \in 0..10 THEN [t |-> "Enum", i |-> d.i] ELSE Err
          [] d.t = "FXRates" -> IF d.ccys = <<>> THEN Err
                                ELSE LET m == Build(d.quotes, <<d.ccys[1]>>, [k \in 1..Len(d.quotes) |-> 0]) IN
                                     IF m.phase = "ready" /\ m.idx = d.ccys THEN [t |-> "FXRates", quotes |-> d.quotes, ccys |-> m.idx, fx |-> m.fx, order |-> 1] ELSE Err
 ShapeOKAbs(o) == CASE o.t = "Dual" -> Len(o.vars) = Len(o.d)
                    [] o.t = "Spline" -> o.n = o.nt - o.k /\ (o.c = <<>> \/ Len(o.c) = o.n)
                    [] o.t = "NamedCal" -> o.parsed.ok /\ Len(o.parsed.cals) >= 1
+                   [] o.t = "Enum" -> o.i \in 0..10
                    [] o.t = "FXRates" -> Len(o.ccys) = Len(o.quotes) + 1 /\ ReadyCorrect([idx |-> o.ccys, quotes |-> o.quotes, fx |-> o.fx])
 \* single mutations of a document
 Alter(d, f) == CASE f = "vars" -> {Append(d.vars, "z"), IF d.vars = <<>> THEN <<"q">> ELSE Tail(d.vars)}
@@ -51,19 +59,42 @@ Alter(d, f) == CASE f = "vars" -> {Append(d.vars, "z"), IF d.vars = <<>> THEN <<
                  [] f = "name" -> {<<"xyz">>, <<"tgt", "|", "|">>, <<>>, <<"ldn">>}
                  [] f = "quotes" -> {<<>>, Append(d.quotes, Q("eur", "usd")), <<Q("gbp", "cad")>>, Append(d.quotes, Q("aud", "nzd"))}
                  [] f = "ccys" -> {<<>>, <<"xxx">>, IF d.ccys = <<>> THEN <<>> ELSE Tail(d.ccys)}
+                 [] f = "i" -> {d.i + 1, 99}
 Mutations(d) == {[d EXCEPT !.broken = {<<f, how>>}] : f \in FieldsOf(d), how \in {"deleted", "duplicated", "retyped"}}
                 \cup UNION {{[d EXCEPT ![f] = v] : v \in Alter(d, f)} : f \in FieldsOf(d)}
-Init == /\ mem \in Objs /\ orig = mem /\ doc = [t |-> "none"] /\ fmt \in {"json", "tagged", "bincode"} /\ phase = "mem" /\ mutated = FALSE
-Save == /\ phase = "mem" /\ doc' = SaveDoc(mem) /\ phase' = "stored" /\ UNCHANGED <<mem, fmt, mutated, orig>>
+\* ---- pickle protocol -----------------------------------------------------------------------
+\* what __getnewargs__ hands to the constructor (as the crate does: the Convention table gives Thirty360ISDA, member 7,
+\* the index of member 6; a market gives its quotes and its first currency as base; splines have no pickle protocol)
+NewArgs(o) == CASE o.t = "Dual" -> [t |-> "Dual", vars |-> o.vars, d |-> o.d]
+                [] o.t = "NamedCal" -> [t |-> "NamedCal", name |-> o.name]
+                [] o.t = "FXRates" -> [t |-> "FXRates", quotes |-> o.quotes, base |-> <<o.ccys[1]>>]
+                [] o.t = "Enum" -> [t |-> "Enum", i |-> IF o.i = 7 THEN 6 ELSE o.i]
+\* the class constructors
+NewObj(a) == CASE a.t = "Dual" -> IF a.d = <<>> \/ Len(a.d) = Len(a.vars) THEN [t |-> "Dual", vars |-> a.vars, d |-> IF a.d = <<>> THEN [i \in 1..Len(a.vars) |-> 1] ELSE a.d] ELSE Err
+               [] a.t = "NamedCal" -> LET p == ParseDecl(a.name) IN IF p.ok THEN [t |-> "NamedCal", name |-> a.name, parsed |-> p] ELSE Err
+               [] a.t = "FXRates" -> LET m == Build(a.quotes, a.base, [k \in 1..Len(a.quotes) |-> 0]) IN
+                                     IF m.phase = "ready" THEN [t |-> "FXRates", quotes |-> a.quotes, ccys |-> m.idx, fx |-> m.fx, order |-> 1] ELSE Err
+               [] a.t = "Enum" -> IF a.i \in 0..10 THEN [t |-> "Enum", i |-> a.i] ELSE Err
+Init == /\ mem \in Objs /\ orig = mem /\ doc = [t |-> "none"] /\ fmt \in {"json", "tagged", "bincode", "pickle"} /\ phase = "mem" /\ mutated = FALSE
+        /\ shell = [t |-> "none"] /\ (fmt = "pickle" => mem.t # "Spline")
+NewFromArgs == /\ phase = "mem" /\ fmt = "pickle" /\ shell' = NewObj(NewArgs(mem)) /\ phase' = "shell" /\ UNCHANGED <<mem, doc, fmt, mutated, orig>>
+SetState == /\ phase = "shell" /\ shell # Err /\ doc' = SaveDoc(mem) /\ mem' = LoadDoc(SaveDoc(mem)) /\ phase' = "loaded"
+            /\ UNCHANGED <<fmt, mutated, orig, shell>>
+Save == /\ phase = "mem" /\ fmt # "pickle" /\ doc' = SaveDoc(mem) /\ phase' = "stored" /\ UNCHANGED <<mem, fmt, mutated, orig, shell>>
 Mutate == /\ phase = "stored" /\ ~mutated /\ fmt # "bincode"
           /\ \E d2 \in Mutations(doc) : doc' = d2
-          /\ mutated' = TRUE /\ UNCHANGED <<mem, fmt, phase, orig>>
-Load == /\ phase = "stored" /\ mem' = LoadDoc(doc) /\ phase' = "loaded" /\ UNCHANGED <<doc, fmt, mutated, orig>>
-Resave == /\ phase = "loaded" /\ mem # Err /\ ~mutated /\ doc' = SaveDoc(mem) /\ phase' = "resaved" /\ UNCHANGED <<mem, fmt, mutated, orig>>
-Next == Save \/ Mutate \/ Load \/ Resave
+          /\ mutated' = TRUE /\ UNCHANGED <<mem, fmt, phase, orig, shell>>
+Load == /\ phase = "stored" /\ mem' = LoadDoc(doc) /\ phase' = "loaded" /\ UNCHANGED <<doc, fmt, mutated, orig, shell>>
+Resave == /\ phase = "loaded" /\ mem # Err /\ ~mutated /\ doc' = SaveDoc(mem) /\ phase' = "resaved" /\ UNCHANGED <<mem, fmt, mutated, orig, shell>>
+Next == Save \/ Mutate \/ Load \/ Resave \/ NewFromArgs \/ SetState
 LoadOfSave == phase = "loaded" /\ ~mutated => mem = Canon(orig)
 CanonIdempotent == Canon(Canon(orig)) = Canon(orig)
 SaveLoadSave == phase = "resaved" => doc = SaveDoc(orig)
 MutatedLoadsSafely == phase = "loaded" /\ mutated => mem = Err \/ ShapeOKAbs(mem)
 UniverseShapeOK == phase = "mem" => ShapeOKAbs(mem)
+\* the constructor never refuses what __getnewargs__ gives it, and builds a well-shaped object (it need not equal the original)
+ShellExists == phase = "shell" => shell # Err /\ ShapeOKAbs(shell) /\ shell.t = mem.t
+\* ... and the lossy table is why __setstate__ is needed: without it member 7 would come back as member 6
+LossyWitness == NewObj(NewArgs([t |-> "Enum", i |-> 7])) # [t |-> "Enum", i |-> 7]
+ASSUME LossyWitness
 ===============================================================================
